@@ -132,28 +132,8 @@ func errClass(err error) string {
 // runOps performs the operations on rw. serveCancel cancels the serving context (handler side).
 func (s *StreamScenario) runOps(rw varlink.ReadWriterContext, base context.Context, serveCancel func(), conn *varlink.Connection) {
 	var recv func(context.Context, interface{}) (uint64, error)
-	if s.Duplex {
-		sim.Go("duplex-writer", func() {
-			for i, op := range s.Ops {
-				if op.Kind != "write" {
-					continue
-				}
-				if op.PauseUs > 0 {
-					sim.Sleep(time.Duration(op.PauseUs) * time.Microsecond)
-				}
-				sim.Rec("op.start", sp(i))
-				n, err := rw.Write(base, op.Data)
-				sim.Rec("op.done", mustJSON(opDone{I: i, Err: errClass(err), N: n}))
-			}
-		})
-	}
-	for i, op := range s.Ops {
-		if s.Duplex && op.Kind == "write" {
-			continue
-		}
-		if op.PauseUs > 0 {
-			sim.Sleep(time.Duration(op.PauseUs) * time.Microsecond)
-		}
+	// begin creates the operation's context, records its start and starts its canceller
+	begin := func(i int, op StreamOp) context.Context {
 		ctx := base
 		var dctx *sim.DeadlineCtx
 		switch op.Ctx.Mode {
@@ -174,7 +154,6 @@ func (s *StreamScenario) runOps(rw varlink.ReadWriterContext, base context.Conte
 		}
 		sim.Rec("op.start", sp(i))
 		if op.Ctx.Mode == "cancel" || op.Ctx.Mode == "servecancel" {
-			i, op, dctx := i, op, dctx
 			sim.Go("canceller", func() {
 				awaitTriggers(op.Ctx.Trigger, "", "")
 				if op.Ctx.Us > 0 {
@@ -190,6 +169,31 @@ func (s *StreamScenario) runOps(rw varlink.ReadWriterContext, base context.Conte
 				}
 			})
 		}
+		return ctx
+	}
+	if s.Duplex {
+		sim.Go("duplex-writer", func() {
+			for i, op := range s.Ops {
+				if op.Kind != "write" {
+					continue
+				}
+				if op.PauseUs > 0 {
+					sim.Sleep(time.Duration(op.PauseUs) * time.Microsecond)
+				}
+				ctx := begin(i, op)
+				n, err := rw.Write(ctx, op.Data)
+				sim.Rec("op.done", mustJSON(opDone{I: i, Err: errClass(err), N: n}))
+			}
+		})
+	}
+	for i, op := range s.Ops {
+		if s.Duplex && op.Kind == "write" {
+			continue
+		}
+		if op.PauseUs > 0 {
+			sim.Sleep(time.Duration(op.PauseUs) * time.Microsecond)
+		}
+		ctx := begin(i, op)
 		var d opDone
 		d.I = i
 		switch op.Kind {
@@ -640,6 +644,11 @@ func (s *StreamScenario) Check(k *sim.Kernel) []sim.Violation {
 		switch o.res.Err {
 		case "nil", "canceled", "deadline", "timeout":
 		case "eof", "closed", "reset", "epipe":
+			if s.Duplex && op.Kind == "write" && o.res.Err == "closed" && s.Side == "handler" {
+				// the handler (the scenario's own code) has returned and the service
+				// closed the connection under the concurrent writer
+				break
+			}
 			if op.Ctx.Mode != "servecancel" && s.PeerEnd == "" {
 				out = append(out, vio("cancellation", "wrong-error "+op.Kind, "op %d (%s, context %s) returned %q instead of a context or timeout error", i, op.Kind, op.Ctx.Mode, o.res.Err))
 			}
@@ -1069,10 +1078,12 @@ func genC17Stream(seed uint64, tier string) Scenario {
 		}
 	}
 	if writes && g.Pct(30) {
-		// reads and writes from two tasks at once; the concurrent writes use the live context
+		// reads and writes from two tasks at once; half of the time the concurrent
+		// writes use the live context only
 		s.Duplex = true
+		live := g.Pct(50)
 		for i := range s.Ops {
-			if s.Ops[i].Kind == "write" {
+			if s.Ops[i].Kind == "write" && (live || s.Ops[i].Ctx.Mode == "servecancel") {
 				s.Ops[i].Ctx = CtxSpec{}
 			}
 		}
